@@ -304,10 +304,16 @@ fn frames(out: &mut Out, gen: &mut Gen, thorough: bool) {
     }
 }
 
+/// Replies whose element order is that of a hash table: two executors with equal content may differ.
+const UNORDERED: &[&str] = &["SMEMBERS", "HKEYS", "HVALS", "HGETALL", "SUNION", "SINTER", "SDIFF"];
+
 /// Commands that have no meaning inside a script (the code refuses them there by design).
 fn script_safe(argv: &Argv) -> bool {
     let name = String::from_utf8_lossy(&argv[0]).to_uppercase();
-    !["EVAL", "EVALSHA", "SCRIPT", "MULTI", "EXEC", "DISCARD", "WATCH", "UNWATCH", "AUTH", "ACL", "HELLO", "QUIT", "CLIENT", "SELECT", "FUNCTION", ""].contains(&name.as_str())
+    // refused inside scripts by design, or answering from hash-map order / randomness / the environment
+    // (twins differ by nature there)
+    !["EVAL", "EVALSHA", "SCRIPT", "MULTI", "EXEC", "DISCARD", "WATCH", "UNWATCH", "AUTH", "ACL", "HELLO", "QUIT", "CLIENT", "SELECT", "FUNCTION", "",
+      "RANDOMKEY", "SPOP", "SRANDMEMBER", "KEYS", "SCAN", "HSCAN", "SSCAN", "ZSCAN", "INFO", "TIME", "DEBUG", "COMMAND", "CONFIG", "OBJECT", "WAIT"].contains(&name.as_str())
 }
 
 /// Every command name at arities 0..3 with plain fillers: direct vs redis.pcall on twin executors.
@@ -367,7 +373,7 @@ fn lua_fixed(out: &mut Out, argv: &Argv) {
     let pcall = script("pcall", &mut t3[0]);
     let (ds, cs, ps) = (project(&mut t1[0], now), project(&mut t2[0], now), project(&mut t3[0], now));
     let canon = |v: &Value| serde_json::to_string(v).unwrap_or_default();
-    out.emit(&json!({"t": "lua", "run": run, "ncmd": 1, "prog": [argv.iter().map(|x| String::from_utf8_lossy(x).to_string()).collect::<Vec<_>>()], "prefix": ["<fixed state>"],
+    out.emit(&json!({"t": "lua", "run": run, "ncmd": 1, "unordered": UNORDERED.contains(&String::from_utf8_lossy(&argv[0]).to_uppercase().as_str()), "prog": [argv.iter().map(|x| String::from_utf8_lossy(x).to_string()).collect::<Vec<_>>()], "prefix": ["<fixed state>"],
                      "direct": {"rs": [j(&direct)], "sh": canon(&ds), "sh_first_err": canon(&ds), "s": ds},
                      "call": {"r": j(&call), "sh": canon(&cs), "s": cs},
                      "pcall": {"r": j(&pcall), "sh": canon(&ps), "s": ps}}));
@@ -451,7 +457,8 @@ fn lua_case(out: &mut Out, gen: &mut Gen) {
     let ps = project(&mut t3[0], now);
     let first = dcall_state.unwrap_or_else(|| dstate.clone());
     let canon = |v: &Value| serde_json::to_string(v).unwrap_or_default();
-    out.emit(&json!({"t": "lua", "run": run, "ncmd": ncmd,
+    let last_name = prog.last().map(|(_, a)| String::from_utf8_lossy(&a[0]).to_uppercase()).unwrap_or_default();
+    out.emit(&json!({"t": "lua", "run": run, "ncmd": ncmd, "unordered": UNORDERED.contains(&last_name.as_str()),
                      "prog": prog.iter().map(|(_, argv)| argv.iter().map(|x| String::from_utf8_lossy(x).to_string()).collect::<Vec<_>>()).collect::<Vec<_>>(),
                      "prefix": prefix,
                      "direct": {"rs": direct, "sh": canon(&dstate), "sh_first_err": canon(&first), "s": dstate},
